@@ -148,71 +148,30 @@ Definition bindr {A B} (p : P A) (f : A -> P B) : P B :=
   bind p (fun r => match r with Ok a => f a | Exc e => Ret (Exc e) end).
 Definition bad {A} : P A := Ret (Exc "internal").
 
+(* ---- variants (DESIGN 2.3): the code as it is (V_code) and the three repairs, each switchable.
+   fx_d12: an all-empty list state is delivered as [] (not the ``{}`` placeholder);
+   fx_d9 : _sync_dtype_and_shape translates the group rank to a global rank for broadcast src;
+   fx_dst: the named ``rank`` is translated to a global rank for gather / gather_object dst.
+   The correspondence decides which variant the tree implements. ---- *)
+Record fixes := mkFx { fx_d12 : bool; fx_d9 : bool; fx_dst : bool }.
+Definition V_code : fixes := mkFx false false false.
+Definition V_fixed : fixes := mkFx true true true.
+(* dist.get_global_rank(group, r) *)
+Definition global_rank (g : list nat) (r : nat) : nat := nth r g r.
+
 (* [dst]: the ``rank`` argument of synclib (None = all ranks receive); [i]: dist.get_rank(group) *)
 Definition receives (dst : option nat) (i : nat) : bool :=
   match dst with None => true | Some d => Nat.eqb i d end.
 
-(* _simple_send_tensors: the gather list is built iff rank is None or local_rank == rank;
-   ``dst=rank`` is handed to dist.gather, which reads it as a global rank *)
-Definition simple_send (dst : option nat) (i : nat) (t : tensor) : P (option (list tensor)) :=
-  match dst with
-  | None => Op (AllGather t) (fun r =>
-      match r with RTens l => Ret (Ok (Some l)) | RErr e => Ret (Exc e) | _ => bad end)
-  | Some d => Op (Gather d (Nat.eqb i d) t) (fun r =>
-      match r with RTens l => Ret (Ok (Some l)) | RNone => Ret (Ok None) | RErr e => Ret (Exc e) | _ => bad end)
-  end.
-
-(* _send_uneven_tensors *)
-Definition send_uneven (dst : option nat) (i : nat) (t : tensor) : P (option (list tensor)) :=
-  Op (AllGather (of_shape (shp t))) (fun r =>
-    match r with
-    | RTens szs =>
-        let sizes := map to_shape szs in
-        if all_eq sizes then simple_send dst i t
-        else bindr (simple_send dst i (tpad (maxshape sizes) t))
-                   (fun o => Ret (Ok (option_map (map2 tslice sizes) o)))
-    | RErr e => Ret (Exc e)
-    | _ => bad
-    end).
-
-(* send_tensors (torch.distributed initialised) *)
-Definition send_tensors (dst : option nat) (i : nat) (t : tensor) : P (option (list tensor)) :=
-  match shp t with [] => simple_send dst i t | _ => send_uneven dst i t end.
-
-(* ---- gathered_states: one slot per rank of the WORLD (range(dist.get_world_size())) ---- *)
+(* gathered_states and friends do not depend on the variant *)
 Inductive gs :=
 | GEmpty                                   (* the ``{}`` placeholder of _get_empty_metric_state_collection *)
 | GT (t : tensor) | GL (l : list tensor) | GD (l : list (string * tensor)) | GO (v : val).
 Definition untouched (Wg : nat) : list gs := repeat GEmpty Wg.
 Definition pad_slots (Wg : nat) (l : list gs) : list gs := l ++ repeat GEmpty (Wg - List.length l).
-
-(* _sync_tensor_states *)
-Definition sync_tensor (dst : option nat) (i Wg : nat) (t : tensor) : P (list gs) :=
-  bindr (send_tensors dst i t) (fun o =>
-    Ret (Ok (match o with None => untouched Wg | Some l => pad_slots Wg (map GT l) end))).
-
 Definition maxZ (l : list Z) : Z := fold_right Z.max (-1)%Z l.
 Definition maxl (l : list nat) : nat := fold_right Nat.max 0 l.
 Definition vZ (v : val) : Z := match v with VZ z => z | _ => (-1)%Z end.
-
-(* _sync_dtype_and_shape: NOTE ``src=rank_with_dtype`` is a GROUP rank used as a GLOBAL rank *)
-Definition sync_dtype_shape (i : nat) (t : option tensor) : P (option meta) :=
-  Op (AllGatherObj (VZ (match t with Some _ => Z.of_nat i | None => (-1)%Z end))) (fun r =>
-    match r with
-    | RObjs l =>
-        let rk := maxZ (map vZ l) in
-        if Z.eqb rk (-1) then Ret (Ok None)
-        else Op (BcastObj (Z.to_nat rk) (if Z.eqb (Z.of_nat i) rk then option_map meta_of t else None)) (fun r =>
-               match r with
-               | RMeta (Some m) => Ret (Ok (Some m))
-               | RMeta None => Ret (Exc "TypeError")       (* dtype, shape = None *)
-               | RErr e => Ret (Exc e)
-               | _ => bad
-               end)
-    | RErr e => Ret (Exc e)
-    | _ => bad
-    end).
-
 Definition glen (a : gs) : nat := match a with GL l => List.length l | GD l => List.length l | _ => 0 end.
 Definition gapp (a : gs) (t : tensor) : gs := match a with GL l => GL (l ++ [t]) | _ => a end.
 (* the body of ``for _rank, state_tensor in enumerate(gathered_state_data)`` in round k *)
@@ -223,31 +182,6 @@ Fixpoint collect (k : nat) (acc : list gs) (ts : list tensor) (lens : list nat) 
        if Nat.ltb k len then gapp a' t else a') :: collect k acc' ts' lens'
   | _, _, _ => acc
   end.
-
-Fixpoint list_loop (dst : option nat) (i : nat) (m : meta) (lens : list nat) (xs : list tensor)
-         (k fuel : nat) (acc : list gs) : P (list gs) :=
-  match fuel with
-  | O => Ret (Ok acc)
-  | S f => bindr (send_tensors dst i (nth k xs (dummy m))) (fun o =>
-             list_loop dst i m lens xs (S k) f
-                       (match o with Some ts => collect k acc ts lens | None => acc end))
-  end.
-
-(* _sync_list_tensor_states *)
-Definition sync_list (dst : option nat) (i Wg : nat) (xs : list tensor) : P (list gs) :=
-  Op (AllGatherObj (VZ (Z.of_nat (List.length xs)))) (fun r =>
-    match r with
-    | RObjs l =>
-        let lens := map (fun v => Z.to_nat (vZ v)) l in
-        let go (m : meta) := list_loop dst i m lens xs 0 (maxl lens) (untouched Wg) in
-        if existsb (Nat.eqb 0) lens then
-          bindr (sync_dtype_shape i (hd_error xs)) (fun o =>
-            match o with None => Ret (Ok (untouched Wg)) | Some m => go m end)
-        else match xs with x0 :: _ => go (meta_of x0) | [] => bad end
-    | RErr e => Ret (Exc e)
-    | _ => bad
-    end).
-
 (* sorted(my_state_data.keys()) : insertion sort on ASCII strings *)
 Fixpoint ins_key {X} (kx : string * X) (l : list (string * X)) : list (string * X) :=
   match l with
@@ -255,37 +189,8 @@ Fixpoint ins_key {X} (kx : string * X) (l : list (string * X)) : list (string * 
   | ky :: r => if String.leb (fst kx) (fst ky) then kx :: l else ky :: ins_key kx r
   end.
 Definition sort_keys {X} (l : list (string * X)) : list (string * X) := fold_right ins_key [] l.
-
 Definition glist (a : gs) : list tensor := match a with GL l => l | _ => [] end.
-(* _sync_dict_tensor_states: zip(sorted LOCAL keys, gathered tensors), for every world slot *)
-Definition sync_dict (dst : option nat) (i Wg : nat) (kv : list (string * tensor)) : P (list gs) :=
-  let skv := sort_keys kv in
-  bindr (sync_list dst i Wg (map snd skv)) (fun acc =>
-    Ret (Ok (if receives dst i then map (fun a => GD (combine (map fst skv) (glist a))) acc else acc))).
-
-(* _sync_obj_states *)
-Definition sync_obj (dst : option nat) (i Wg : nat) (v : val) : P (list gs) :=
-  match dst with
-  | None => Op (AllGatherObj v) (fun r =>
-      match r with RObjs l => Ret (Ok (pad_slots Wg (map GO l))) | RErr e => Ret (Exc e) | _ => bad end)
-  | Some d => Op (GatherObj d (Nat.eqb i d) v) (fun r =>
-      match r with
-      | RObjs l => Ret (Ok (pad_slots Wg (map GO l)))
-      | RNone => Ret (Ok (untouched Wg))
-      | RErr e => Ret (Exc e)
-      | _ => bad end)
-  end.
-
 Inductive state := STensor (t : tensor) | SList (l : list tensor) | SDict (l : list (string * tensor)) | SObj (v : val).
-Definition state_sync (dst : option nat) (i Wg : nat) (s : state) : P (list gs) :=
-  match s with
-  | STensor t => sync_tensor dst i Wg t
-  | SList l => sync_list dst i Wg l
-  | SDict kv => sync_dict dst i Wg kv
-  | SObj v => sync_obj dst i Wg v
-  end.
-
-(* ---- sync_states ---- *)
 Definition sdict := list (string * state).             (* a metric's state_dict *)
 Definition mdict := list (string * sdict).             (* metric name -> state_dict *)
 Definition key := (string * string)%type.
@@ -306,7 +211,124 @@ Fixpoint set_key (k : key) (v : gs) (d : gdict) : gdict :=
 Fixpoint get_key (k : key) (d : gdict) : option gs :=
   match d with [] => None | (k', x) :: r => if key_eqb k k' then Some x else get_key k r end.
 Definition put (k : key) (vals : list gs) (gath : list gdict) : list gdict := map2 (set_key k) vals gath.
+Definition template (order : list key) : gdict := map (fun k => (k, GEmpty)) order.
 
+Section Variant.
+Variable fx : fixes.
+Variable g : list nat.        (* global ranks of the members of the process group, in group order *)
+
+(* the root handed to dist.gather / gather_object for the named ``rank`` d *)
+Definition dst_root (d : nat) : nat := if fx_dst fx then global_rank g d else d.
+(* the src handed to broadcast_object_list for the group rank rk *)
+Definition src_root (rk : nat) : nat := if fx_d9 fx then global_rank g rk else rk.
+
+(* _simple_send_tensors: the gather list is built iff rank is None or local_rank == rank;
+   V_code: ``dst=rank`` is handed to dist.gather, which reads it as a global rank *)
+Definition simple_send (dst : option nat) (i : nat) (t : tensor) : P (option (list tensor)) :=
+  match dst with
+  | None => Op (AllGather t) (fun r =>
+      match r with RTens l => Ret (Ok (Some l)) | RErr e => Ret (Exc e) | _ => bad end)
+  | Some d => Op (Gather (dst_root d) (Nat.eqb i d) t) (fun r =>
+      match r with RTens l => Ret (Ok (Some l)) | RNone => Ret (Ok None) | RErr e => Ret (Exc e) | _ => bad end)
+  end.
+
+(* _send_uneven_tensors *)
+Definition send_uneven (dst : option nat) (i : nat) (t : tensor) : P (option (list tensor)) :=
+  Op (AllGather (of_shape (shp t))) (fun r =>
+    match r with
+    | RTens szs =>
+        let sizes := map to_shape szs in
+        if all_eq sizes then simple_send dst i t
+        else bindr (simple_send dst i (tpad (maxshape sizes) t))
+                   (fun o => Ret (Ok (option_map (map2 tslice sizes) o)))
+    | RErr e => Ret (Exc e)
+    | _ => bad
+    end).
+
+(* send_tensors (torch.distributed initialised) *)
+Definition send_tensors (dst : option nat) (i : nat) (t : tensor) : P (option (list tensor)) :=
+  match shp t with [] => simple_send dst i t | _ => send_uneven dst i t end.
+
+(* _sync_tensor_states *)
+Definition sync_tensor (dst : option nat) (i Wg : nat) (t : tensor) : P (list gs) :=
+  bindr (send_tensors dst i t) (fun o =>
+    Ret (Ok (match o with None => untouched Wg | Some l => pad_slots Wg (map GT l) end))).
+
+(* _sync_dtype_and_shape: NOTE in V_code ``src=rank_with_dtype`` is a GROUP rank used as a GLOBAL rank *)
+Definition sync_dtype_shape (i : nat) (t : option tensor) : P (option meta) :=
+  Op (AllGatherObj (VZ (match t with Some _ => Z.of_nat i | None => (-1)%Z end))) (fun r =>
+    match r with
+    | RObjs l =>
+        let rk := maxZ (map vZ l) in
+        if Z.eqb rk (-1) then Ret (Ok None)
+        else Op (BcastObj (src_root (Z.to_nat rk)) (if Z.eqb (Z.of_nat i) rk then option_map meta_of t else None)) (fun r =>
+               match r with
+               | RMeta (Some m) => Ret (Ok (Some m))
+               | RMeta None => Ret (Exc "TypeError")       (* dtype, shape = None *)
+               | RErr e => Ret (Exc e)
+               | _ => bad
+               end)
+    | RErr e => Ret (Exc e)
+    | _ => bad
+    end).
+
+Fixpoint list_loop (dst : option nat) (i : nat) (m : meta) (lens : list nat) (xs : list tensor)
+         (k fuel : nat) (acc : list gs) : P (list gs) :=
+  match fuel with
+  | O => Ret (Ok acc)
+  | S f => bindr (send_tensors dst i (nth k xs (dummy m))) (fun o =>
+             list_loop dst i m lens xs (S k) f
+                       (match o with Some ts => collect k acc ts lens | None => acc end))
+  end.
+
+(* _sync_list_tensor_states *)
+Definition sync_list (dst : option nat) (i Wg : nat) (xs : list tensor) : P (list gs) :=
+  Op (AllGatherObj (VZ (Z.of_nat (List.length xs)))) (fun r =>
+    match r with
+    | RObjs l =>
+        let lens := map (fun v => Z.to_nat (vZ v)) l in
+        let go (m : meta) := list_loop dst i m lens xs 0 (maxl lens) (untouched Wg) in
+        if existsb (Nat.eqb 0) lens then
+          bindr (sync_dtype_shape i (hd_error xs)) (fun o =>
+            match o with
+            | None =>        (* every rank's list is empty.  V_code: nothing is written (the ``{}`` placeholder stays) *)
+                Ret (Ok (if fx_d12 fx && receives dst i then pad_slots Wg (map (fun _ => GL []) lens)
+                         else untouched Wg))
+            | Some m => go m
+            end)
+        else match xs with x0 :: _ => go (meta_of x0) | [] => bad end
+    | RErr e => Ret (Exc e)
+    | _ => bad
+    end).
+
+(* _sync_dict_tensor_states: zip(sorted LOCAL keys, gathered tensors), for every world slot *)
+Definition sync_dict (dst : option nat) (i Wg : nat) (kv : list (string * tensor)) : P (list gs) :=
+  let skv := sort_keys kv in
+  bindr (sync_list dst i Wg (map snd skv)) (fun acc =>
+    Ret (Ok (if receives dst i then map (fun a => GD (combine (map fst skv) (glist a))) acc else acc))).
+
+(* _sync_obj_states *)
+Definition sync_obj (dst : option nat) (i Wg : nat) (v : val) : P (list gs) :=
+  match dst with
+  | None => Op (AllGatherObj v) (fun r =>
+      match r with RObjs l => Ret (Ok (pad_slots Wg (map GO l))) | RErr e => Ret (Exc e) | _ => bad end)
+  | Some d => Op (GatherObj (dst_root d) (Nat.eqb i d) v) (fun r =>
+      match r with
+      | RObjs l => Ret (Ok (pad_slots Wg (map GO l)))
+      | RNone => Ret (Ok (untouched Wg))
+      | RErr e => Ret (Exc e)
+      | _ => bad end)
+  end.
+
+Definition state_sync (dst : option nat) (i Wg : nat) (s : state) : P (list gs) :=
+  match s with
+  | STensor t => sync_tensor dst i Wg t
+  | SList l => sync_list dst i Wg l
+  | SDict kv => sync_dict dst i Wg kv
+  | SObj v => sync_obj dst i Wg v
+  end.
+
+(* ---- sync_states ---- *)
 Fixpoint sync_loop (dst : option nat) (i Wg : nat) (md : mdict) (order : list key) (gath : list gdict)
   : P (list gdict) :=
   match order with
@@ -317,11 +339,12 @@ Fixpoint sync_loop (dst : option nat) (i Wg : nat) (md : mdict) (order : list ke
       | None => Ret (Exc "KeyError")
       end
   end.
-Definition template (order : list key) : gdict := map (fun k => (k, GEmpty)) order.
 Definition sync_states (dst : option nat) (i Wg : nat) (md : mdict) (order : list key)
   : P (option (list gdict)) :=
   bindr (sync_loop dst i Wg md order (repeat (template order) Wg)) (fun gath =>
     Ret (Ok (if receives dst i then Some gath else None))).
+
+End Variant.
 
 (* ------------------------------------------------------------------ val codecs (harness) *)
 Fixpoint td_of_val (v : val) : td :=
@@ -381,32 +404,38 @@ Definition val_of_run {A} (f : A -> val) (tr : list (list (option call)) * optio
   VL [VL (map (fun round => VL (map (vopt val_of_call) round)) (fst tr));
       match snd tr with Some l => VL (map (val_of_res f) l) | None => VT "mismatch" [] end].
 
+Definition fixes_of_val (v : val) : fixes :=
+  match v with
+  | VL [a; b; c] => mkFx (match as_B a with Some true => true | _ => false end)
+                         (match as_B b with Some true => true | _ => false end)
+                         (match as_B c with Some true => true | _ => false end)
+  | _ => V_code end.
 Definition dst_of_val (v : val) : option nat := match v with VZ z => Some (Z.to_nat z) | _ => None end.
 Fixpoint mapi {X Y} (f : nat -> X -> Y) (i : nat) (l : list X) : list Y :=
   match l with [] => [] | x :: r => f i x :: mapi f (S i) r end.
 
-(* scenario: (Wg (g ...) dst [send t_0 ...] | [states md_0 ...]) with one entry per member of g *)
+(* scenario: (Wg (g ...) dst (fix_d12 fix_d9 fix_dst) (t_0 ...) | (md_0 ...)) with one entry per member of g *)
 (* @model sync_send run_sync_send *)
 Definition run_sync_send (v : val) : val :=
   match v with
-  | VL [VZ _; VL g; d; VL ts] =>
+  | VL [VZ _; VL g; d; fxv; VL ts] =>
       match omap tensor_of_val ts with
       | Some ts =>
           let g := map nat_of g in let dst := dst_of_val d in
           val_of_run (vopt (fun l => VL (map val_of_tensor l)))
-                     (run_all_tr (respond g) (mapi (fun i t => send_tensors dst i t) 0 ts))
+                     (run_all_tr (respond g) (mapi (fun i t => send_tensors (fixes_of_val fxv) g dst i t) 0 ts))
       | None => vbad end
   | _ => vbad end.
 
 (* @model sync_states run_sync_states *)
 Definition run_sync_states (v : val) : val :=
   match v with
-  | VL [VZ wg; VL g; d; VL mds] =>
+  | VL [VZ wg; VL g; d; fxv; VL mds] =>
       match omap mdict_of_val mds with
       | Some mds =>
           let g := map nat_of g in let dst := dst_of_val d in
           val_of_run (vopt (fun l => VL (map val_of_gdict l)))
                      (run_all_tr (respond g)
-                        (mapi (fun i md => sync_states dst i (Z.to_nat wg) md (traversal md)) 0 mds))
+                        (mapi (fun i md => sync_states (fixes_of_val fxv) g dst i (Z.to_nat wg) md (traversal md)) 0 mds))
       | None => vbad end
   | _ => vbad end.
